@@ -12,7 +12,7 @@ driver pplv_grid replays the journal on the reference model and decides with the
   query  : every answer equals what the denoted set dictates
 A `desc` mismatch re-bases the model on the library's state, so one defect gives one mismatch.
 """
-import collections, hashlib, json, os, re
+import collections, hashlib, json, os, re, shutil
 
 LEVEL = "proof"
 
@@ -615,6 +615,8 @@ def run(ctx):
         exceptions=excs, harness_crashes=crashes,
         history_length=length,
     )
+    if not ctx.violations:
+        shutil.rmtree(wd, ignore_errors=True)      # journals are kept only for a failing run
     ctx.assumptions += [
         "the reference operations that need a congruence form of a generator-described grid (intersection, expand, "
         "is_disjoint_from, difference) are certifying: skipped (counted under verdicts.skip) when equivB rejects the proposal",
